@@ -65,7 +65,7 @@ def run(R):
     from harness import C20_template as T
     quick = R.tier == 'quick'
     dmax = 1 if quick else 2
-    pct = 170 if quick else 1300
+    pct = 400 if quick else 1300
     max_rounds = 8
     cfgs = configs(R.tier)
     R.bounds = {'workers': '3' if quick else '3 (all configurations), 4 (permit-holding caller, P=2; drains none/full)',
